@@ -658,6 +658,10 @@ pub fn run(ctx: &Ctx, replay: Option<&Value>, rest: &[String]) -> i32 {
     for s in samples {
         ctx.add_sample(s);
     }
+    // protocol level: deterministic DAP sessions on the real process
+    let dap_ok = super::c19_dap::conformance(ctx);
+    replays += dap_ok;
+    ctx.set("dap_sessions_agreeing", json!(dap_ok));
     ctx.set("states", json!(states.len()));
     ctx.set("transitions", json!(transitions));
     ctx.set("traces_validated_against_impl", json!(replays));
